@@ -2,6 +2,7 @@ package main
 
 import (
 	"fmt"
+	"math"
 	"math/rand"
 	"sort"
 	"strings"
@@ -40,6 +41,7 @@ func paramSnapshot(m *gonnx.Model) string {
 }
 
 func genC17(dir, tier string, seed int64) {
+	runDeadline = time.Hour // the watchdog below bounds the whole concurrent phase
 	r := rand.New(rand.NewSource(seed))
 	var models []*concModel
 	for _, s := range sampleModels(tier == "thorough") {
@@ -58,7 +60,118 @@ func genC17(dir, tier string, seed int64) {
 			}
 		}
 	}
-	res := goOnlyResult{Stream: "C17_goroutines", Rule: "for the sample models and single-node models from every fixture (all inputs after the first as shared weights; Scaler/LinearRegressor/Constant attribute tensors included): 2, 4, 8 and 16 goroutines released by one barrier, each performing a sequence of Runs on ONE shared Model with its own input tensors (one Run in five with an input whose last axis is one too long, so that it fails inside an operator, or not, exactly as it does alone), with a background goroutine that keeps loading further Models (from the bytes and from the very ModelProto object the shared Model was built from) and running a model with an unimplemented operator (which fails); every output compared bit for bit with the sequential baseline; the binary is built with the Go race detector (a report is a violation)", Violations: []string{}}
+	// a model with four Constant nodes whose value tensors have one element type and shape, stored as raw
+	// bytes, and different contents; and one with four such initializers
+	rawF32 := func(vals ...float32) []byte {
+		var b []byte
+		for _, v := range vals {
+			u := math.Float32bits(v)
+			b = append(b, byte(u), byte(u>>8), byte(u>>16), byte(u>>24))
+		}
+		return b
+	}
+	xInfo := &onnx.ValueInfoProto{Name: "x", Type: &onnx.TypeProto{Value: &onnx.TypeProto_TensorType{TensorType: &onnx.TypeProto_Tensor{ElemType: 1, Shape: &onnx.TensorShapeProto{Dim: []*onnx.TensorShapeProto_Dimension{{Value: &onnx.TensorShapeProto_Dimension_DimParam{DimParam: "n"}}}}}}}}
+	mkX := func(v int) gonnx.Tensors {
+		return gonnx.Tensors{"x": tensor.New(tensor.WithShape(3), tensor.WithBacking([]float32{float32(v), float32(v) + 0.5, -float32(v)}))}
+	}
+	for _, asInit := range []bool{false, true} {
+		g := &onnx.GraphProto{Name: "g", Input: []*onnx.ValueInfoProto{xInfo}}
+		var outs []string
+		for k := 0; k < 4; k++ {
+			cn, yn := fmt.Sprintf("c%d", k), fmt.Sprintf("y%d", k)
+			tp := &onnx.TensorProto{DataType: 1, Dims: []int64{3}, RawData: rawF32(float32(1+k*10), float32(2+k*10), float32(3+k*10))}
+			if asInit {
+				tp.Name = cn
+				g.Initializer = append(g.Initializer, tp)
+			} else {
+				g.Node = append(g.Node, &onnx.NodeProto{OpType: "Constant", Output: []string{cn}, Attribute: []*onnx.AttributeProto{{Name: "value", Type: onnx.AttributeProto_TENSOR, T: tp}}})
+			}
+			g.Node = append(g.Node, &onnx.NodeProto{OpType: "Add", Input: []string{"x", cn}, Output: []string{yn}})
+			g.Output = append(g.Output, &onnx.ValueInfoProto{Name: yn})
+			outs = append(outs, yn)
+		}
+		b, _ := proto.Marshal(&onnx.ModelProto{IrVersion: 7, OpsetImport: []*onnx.OperatorSetIdProto{{Version: 13}}, Graph: g})
+		name := "four-raw-constants-of-one-shape"
+		if asInit {
+			name = "four-raw-initializers-of-one-shape"
+		}
+		models = append(models, &concModel{name: name, bytes: b, outs: outs, nVar: 3, mk: mkX})
+	}
+	// models loaded CONCURRENTLY: two models whose initializers have the same names, element type and shape
+	// (raw bytes) and different contents, loaded from 8 goroutines at once; each loaded Model must compute
+	// what the same bytes compute when loaded alone
+	loads := goOnlyResult{Stream: "C17_concurrent_loads", Rule: "two models whose (raw-bytes) initializers share names, element type and shape but not contents are loaded from 8 goroutines released by one barrier, 12 times each; every Model so loaded is run and must give, bit for bit, what its bytes give when loaded alone", Violations: []string{}}
+	{
+		var twins [][]byte
+		var want []string
+		for m := 0; m < 2; m++ {
+			g := &onnx.GraphProto{Name: "g", Input: []*onnx.ValueInfoProto{xInfo}, Output: []*onnx.ValueInfoProto{{Name: "y"}},
+				Initializer: []*onnx.TensorProto{{Name: "w", DataType: 1, Dims: []int64{3}, RawData: rawF32(float32(1+m*100), float32(2+m*100), float32(3+m*100))},
+					{Name: "b", DataType: 1, Dims: []int64{3}, RawData: rawF32(float32(7+m*100), float32(8+m*100), float32(9+m*100))}},
+				Node: []*onnx.NodeProto{{OpType: "Mul", Input: []string{"x", "w"}, Output: []string{"a"}}, {OpType: "Add", Input: []string{"a", "b"}, Output: []string{"y"}}}}
+			b, _ := proto.Marshal(&onnx.ModelProto{IrVersion: 7, OpsetImport: []*onnx.OperatorSetIdProto{{Version: 13}}, Graph: g})
+			twins = append(twins, b)
+			mm, err := gonnx.NewModelFromBytes(b)
+			if err != nil {
+				want = append(want, "load error: "+err.Error())
+				continue
+			}
+			out, err, _ := runRec(mm, mkX(2))
+			want = append(want, outSnap(out, err, []string{"y"}))
+		}
+		nRounds := 6
+		if tier == "thorough" {
+			nRounds = 60
+		}
+		for round := 0; round < nRounds; round++ {
+			loads.N++
+			var wg sync.WaitGroup
+			var mu sync.Mutex
+			start := make(chan struct{})
+			bad := ""
+			for gi := 0; gi < 8; gi++ {
+				wg.Add(1)
+				go func(gi int) {
+					defer wg.Done()
+					<-start
+					for k := 0; k < 12; k++ {
+						which := (gi + k) % 2
+						got := ""
+						func() {
+							defer func() {
+								if rec := recover(); rec != nil {
+									got = fmt.Sprintf("panic: %v", rec)
+								}
+							}()
+							mm, err := gonnx.NewModelFromBytes(twins[which])
+							if err != nil {
+								got = "load error: " + err.Error()
+								return
+							}
+							out, err, _ := runRec(mm, mkX(2))
+							got = outSnap(out, err, []string{"y"})
+						}()
+						if got != want[which] {
+							mu.Lock()
+							if bad == "" {
+								bad = fmt.Sprintf("model %d loaded by goroutine %d (load %d) while the other goroutines load its twin: %.300s  vs loaded alone  %.300s", which, gi, k, got, want[which])
+							}
+							mu.Unlock()
+						}
+					}
+				}(gi)
+			}
+			close(start)
+			wg.Wait()
+			if bad != "" {
+				loads.Violations = append(loads.Violations, bad)
+				break
+			}
+		}
+		loads.Distinct = loads.N
+		meta.GoOnly = append(meta.GoOnly, loads)
+	}
+	res := goOnlyResult{Stream: "C17_goroutines", Rule: "for the sample models and single-node models from every fixture (all inputs after the first as shared weights; Scaler/LinearRegressor/Constant attribute tensors included), a model with four Constant nodes and one with four initializers of one element type and shape stored as raw bytes: 2, 4, 8 and 16 goroutines released by one barrier, each performing a sequence of Runs on ONE shared Model with its own input tensors (one Run in five with an input whose last axis is one too long, so that it fails inside an operator, or not, exactly as it does alone), with a background goroutine that keeps loading further Models (from the bytes and from the very ModelProto object the shared Model was built from) and running a model with an unimplemented operator (which fails); every output compared bit for bit with the sequential baseline; the binary is built with the Go race detector (a report is a violation)", Violations: []string{}}
 	rounds := 1
 	runsPer := 24
 	if tier == "thorough" {
